@@ -1,6 +1,7 @@
 //! modelsim: generated models under simulated API histories. The batch binary links this crate
 //! with the generated modules + drivers of one corpus and calls `main_with`.
 
+pub mod c17;
 pub mod core;
 pub mod hist_props;
 pub mod monitors;
@@ -41,6 +42,9 @@ pub fn run_case(progs: &[Prog], case: &Json) -> Result<Result<hist_props::RunInf
                     "C20" => hist_props::run_c20(prog, &ops),
                     "C02" => multi_props::run_c02(prog, &ops),
                     "C07" => multi_props::run_c07(prog, &ops, case.get("k").and_then(|k| k.as_u64()).map(|k| k as u32)),
+                    "C17" | "C18" if prog.model.is_none() => return Err(format!("{name} has no model declaration")),
+                    "C17" => c17::run_c17(prog, &ops, false),
+                    "C18" => c17::run_c17(prog, &ops, true),
                     other => return Err(format!("no history check for {other}")),
                 })
             }
@@ -191,12 +195,13 @@ fn worker(args: &WorkerArgs, progs: &[Prog]) -> ShardStats {
     for p in ["closes_completed", "closes_cancelled", "budget_hit_runs", "new_elements_by_close", "polls"] {
         stats.declare_probe(p);
     }
-    if matches!(prop, "C02" | "C03" | "C07" | "C16" | "C17" | "C19") {
+    if matches!(prop, "C02" | "C03" | "C07" | "C16" | "C17" | "C18") {
         multi_props::worker(args, progs, &mut stats);
         return stats;
     }
-    let per_prog: u64 = args.get_u64("runs", if thorough { 5000 } else { 1200 });
+    let per_prog: u64 = if prop == "C19" { 0 } else { args.get_u64("runs", if thorough { 5000 } else { 1200 }) };
     let eligible: Vec<usize> = (0..progs.len())
+        .filter(|i| progs[*i].model.is_none())
         .filter(|i| match prop {
             "C06" => progs[*i].surjective,
             "C15" => progs[*i].program.sorts.iter().any(|s| matches!(s.kind, lang::SortKind::Enum(_))),
@@ -286,19 +291,44 @@ fn worker(args: &WorkerArgs, progs: &[Prog]) -> ShardStats {
         }
         idx += args.nshards;
     }
-    if prop == "C20" {
-        // cross-process half: every shard runs the same histories; the top level compares hashes
-        let common = args.get_u64("common", if thorough { 40 } else { 12 });
+    if prop == "C20" || prop == "C19" {
+        // cross-process half (C20) / cross-build half (C19): the same histories are run by every
+        // shard of every binary; the top level compares the transcript hashes
+        let common = args.get_u64("common", if prop == "C19" { if thorough { 400 } else { 96 } } else if thorough { 40 } else { 12 });
         for pi in &eligible {
             let prog = &progs[*pi];
             for j in 0..common {
-                let seed = derive_seed(args.seed, 2020, (*pi as u64) * 1000 + j);
+                if prop == "C19" {
+                    // C19 shards split the histories (there is no cross-process question here)
+                    if j % args.nshards != args.shard {
+                        continue;
+                    }
+                    stats.run_seed(derive_seed(args.seed, 2020, simcore::fnv_str(&prog.name).wrapping_add(j)));
+                }
+                // keyed by the program's name, so that every binary that contains the program runs
+                // the same histories whatever its position in the corpus
+                let seed = derive_seed(args.seed, 2020, simcore::fnv_str(&prog.name).wrapping_add(j));
                 let mut rng = Rng::new(seed);
                 let knobs = HistKnobs::draw(&mut rng);
                 let ops = gen_history(prog, &mut rng, &knobs, true);
                 let r = catch_unwind(AssertUnwindSafe(|| hist_props::transcript(prog, &ops)));
                 let h = match r {
-                    Ok((h, _)) => format!("{h:016x}"),
+                    Ok((h, info)) => {
+                        if prop == "C19" {
+                            stats.steps += info.steps + info.polls;
+                            if info.closes_completed + info.closes_cancelled >= 1 {
+                                stats.nontrivial(h);
+                                if stats.want_sample() && ops.len() <= 14 {
+                                    stats.sample(Json::obj(vec![
+                                        ("program", Json::str(&prog.name)),
+                                        ("ops", Json::arr_str(&ops.iter().map(|o| o.show(&prog.program)).collect::<Vec<_>>())),
+                                        ("transcript_hash", Json::str(&format!("{h:016x}"))),
+                                    ]));
+                                }
+                            }
+                        }
+                        format!("{h:016x}")
+                    }
                     Err(p) => format!("panic:{}", panic_message(&p)),
                 };
                 hashes.push((format!("{}#{j}", prog.name), h));
